@@ -27,9 +27,12 @@ from . import common
 
 PROP = "C10"
 INFO = dict(
-    technique="Lean 4 proof: (a) the PCA identities proved for every dimension over Mathlib matrices on Q from the "
-              "eigen-decomposition contract, tied to the code by certificate checking of the returned factors "
-              "against the exact rational covariance; (b) the n_active_components / trim_components / "
+    technique="Lean 4 proof: (a) the PCA identities proved for every dimension and EVERY linearly ordered field K "
+              "(Mathlib matrices; R, where the ideal output of eigh lives, is an instance - eig_contract_real_witness; "
+              "the driver evaluates the same definitions at K = Q) from the eigen-decomposition contract, tied to "
+              "the code by certificate checking: the RESIDUALS of the contract and of the conclusions are evaluated "
+              "on the float factors the code returned against the exact rational covariance (<= 1e-9; no "
+              "perturbation theorem turns a small residual into a bound on the conclusions); (b) the n_active_components / trim_components / "
               "orthonormalize_against_inplace state machine (float form both in exact arithmetic and on the float "
               "values the code itself computed) proved invariant by induction over every operation list, compared "
               "exactly with the real models on random histories incl. exact ties; (c) PCAModel's object layer "
@@ -47,7 +50,7 @@ INFO = dict(
               "eigenvalue_decomposition, pca, pcacov) and every translated definition is PROVED equal to the Core "
               "definition the theorems are about, for all arguments; the bookkeeping, spectrum and projection clauses "
               "are then stated for the translated definitions themselves",
-    level_text="(a) For all n, d, k: from `U U^T = 1`, `U C = diag(l) U` (what eigh promises, for the symmetrised "
+    level_text="(a) For all n, d, k and every linearly ordered field K: from `U U^T = 1`, `U C = diag(l) U` (what eigh promises, for the symmetrised "
                "covariance on the d<n path, for the Gram matrix plus the sqrt contract on the d>=n path) the rows are "
                "orthonormal eigen-rows of the sample covariance with the n-1 normaliser, each eigenvalue equals the "
                "sample variance along its component, project(instance(w)) = w, reconstruct is an idempotent symmetric "
@@ -100,14 +103,29 @@ INFO = dict(
          "fractions away from ties, at exact ties, one ulp from ties and 1.0, orthonormalize_against_inplace, "
          "synthetic (a third with power-of-two total) or data-built spectrum); distinct = distinct input; "
          "non-trivial = at least 2 components",
-    partial=["float rounding inside eigh/qr/sqrt/division is not modelled: the eigen / QR / sqrt contracts are theorem "
+    partial=["half (a) is a statement about EXACT factors (in any ordered field, e.g. the real eigen-decomposition); over Q "
+             "alone the contract is satisfiable only for data with a rational eigen-decomposition (of the generated "
+             "data sets only the rank-1 ones), so on generated data the check evaluates residuals of the contract and "
+             "of the conclusions (<= 1e-9), not an instance of the hypothesis (audit F1)",
+             "clauses proved in a weaker / conditional form than worded: the eigen contract gives eigenvalue = sample "
+             "variance >= 0; STRICT positivity and the descending order are theorems about eigenvalue_decomposition's "
+             "post-processing (spectrum_desc_pos, src_spectrum), linked to the contract's eigenvalues by the translated "
+             "plan + certificate, not by a theorem; 'every training sample is reconstructed exactly' is proved under "
+             "tr C = sum of the kept eigenvalues (false when a positive eigenvalue below eps*max is dropped: such data "
+             "are rejected by the generator); 'the sample mean as its mean' holds for centred models, an uncentred model "
+             "has mean exactly zero (what the code does and mean_clause states); object_level_eq_vector_level restates "
+             "the definition of the object model (its tie to the code is the regenerated call table delegates_ok)",
+             "float rounding inside eigh/qr/sqrt/division is not modelled: the eigen / QR / sqrt contracts are theorem "
              "hypotheses, checked numerically (<= 1e-9) on the factors the code returns for every generated data set",
              "equal eigenvalues (a degenerate spectrum) are excluded by the generators as the property text does "
              "('well-separated spectrum'); variance fractions AT a tie are generated and followed through the float "
              "values the code computed (model input), where the property text leaves the count open: the oracle "
              "admits the two neighbouring counts there, and ValueError within 1e-6 of the kept ratio (the guard "
-             "`value <= _total_variance_ratio()` is a float comparison); the count itself is clamped by the code "
-             "(fix adec1e3, translated and proved: genSetActive_float, repaired_float_never_raises)",
+             "`value <= _total_variance_ratio()` is a float comparison) except for the fraction 1.0 on an untrimmed "
+             "model, which must succeed (the fixed defect adec1e3 is reported again if it returns); the count itself is "
+             "clamped by the code (translated and proved: genSetActive_float, repaired_float_never_raises); whether "
+             "a request OUTSIDE 1..n_components / (0, kept ratio] is refused or clamped is not judged by the oracle "
+             "(not in the property text), only compared with the model",
              "pca / pcacov are translated as PLANS over symbolic arrays (which numpy operation on which operand in "
              "which branch: genPca_eq / genPcacov_eq); that these numpy operations are the matrix operations of "
              "Core/C10Linear (mean, centring, covariance / Gram matrix with n-1, symmetrisation, Gram rescale) is tied "
@@ -118,7 +136,29 @@ INFO = dict(
              "orthonormalize_against_inplace; increment (incremental PCA) belongs to C11; __setstate__, plotting and "
              "__str__ are not modelled"],
     assumptions=["numpy.linalg.eigh returns orthonormal eigenvectors of the symmetric input (contract, checked "
-                 "numerically per case)", "numpy.sqrt(x)**2 = x (contract of the Gram-path rescale, of "
+                 "numerically per case)",
+                 "value types: the argument of the setter / trim_components / max_n_components is None, a python int, "
+                 "a python float (numpy.float64 is one) or a numpy integer - the model's PyVal / Val are closed over "
+                 "these four; numpy.float32/float16 fractions are exercised by the oracle only (known finding "
+                 "C10/bookkeeping/numpy-float, patch notes/fixes/C10-numpy-float-fraction.diff); None assigned directly "
+                 "to the setter is TypeError in Python, `error` in the model (error kinds are not distinguished)",
+                 "pca / pcacov return as many eigenvalues as eigenvector rows, and init_from_components is given matching "
+                 "arrays (hypothesis `hlen` of src_trim_eq_build_with_max; the bookkeeping theorems are stated for "
+                 "init eig0.length eig0; init_from_components itself does not check it)",
+                 "shape of numpy's reduced QR: qr(hstack(other.T, self.T))[0].T has min(d, k1 + n_components) rows "
+                 "(Core orthoQRows; compared through the histories with orthonormalize_against_inplace)",
+                 "trusted vocabulary of the translation, coarser than the source: `.copy()`, `np.copyto`, in-place vs "
+                 "rebinding and object identity are invisible to the translated obligations (VALUE level: aliasing / "
+                 "non-mutation is judged by the oracle - copy-not-independent, argument-mutated, "
+                 "state-changed-by-failed-call - not by the tie); dtype decisions of pca (np.issubdtype -> one Boolean, "
+                 "np.zeros(d, dtype=..) -> zeros d) are only exercised by the integer-dtype generator cases; in the "
+                 "vector-level vocabulary n_components and n_active_components are the same number k (the methods see "
+                 "the active view only); np.dot with mismatching inner dimensions is the zero matrix (numpy raises; "
+                 "the callers' guards come first); empty-list mean / division by a zero original variance are "
+                 "totalised to 0 (unreachable for a positive spectrum)",
+                 "the correspondence (not the oracle) reads private attributes (_eigenvalues, _trimmed_eigenvalues, "
+                 "_components) and the MRO / call-target tables are snapshot equalities: a behaviour-preserving change "
+                 "of the representation or a method moved between base classes is reported as a broken tie", "numpy.sqrt(x)**2 = x (contract of the Gram-path rescale, of "
                  "whitened_components and of component/normalized weights)",
                  "numpy.linalg.qr returns orthonormal columns (orthonormalize_against_inplace; checked per case)",
                  "PointCloud / Image as_vector and from_vector are C-order ravel / reshape (modelled; compared with "
@@ -177,6 +217,8 @@ THEOREMS = [
     "MenpoModel.C10.GenProps.delegates_ok",
     "MenpoModel.C10.GenProps.object_layer_resolution",
     # Core-level facts the translated-source theorems rest on
+    "MenpoModel.C10.eig_contract_sqrt_two_witness",
+    "MenpoModel.C10.eig_contract_real_witness",
     "MenpoModel.C10.clamp_is_noop_in_exact_arithmetic",
     "MenpoModel.C10.constructors_build",
     # obligations over the SOURCE TEXT translated on every run (harness/trans_c10.py -> Generated/C10Src.lean):
@@ -1082,13 +1124,15 @@ def compare_post(ctx, cid, reply, ex):
     if m != len(ex["vals"]):
         ctx.mismatch("post.count", "model keeps %d (witness indices %r), implementation %d" % (m, idx, len(ex["vals"])), ex["rp"])
         return
-    if ex["inv"]:
-        good = all(abs(a - b) <= 1e-12 * (1 + abs(b)) for a, b in zip(vals, ex["vals"]))
-    else:
-        good = vals == ex["vals"]
+    # (audit F7) up to rounding: the code may obtain the witness from another LAPACK driver than the harness
+    good = all(abs(a - b) <= 1e-9 * (1 + abs(b)) for a, b in zip(vals, ex["vals"]))
     if not good:
         ctx.mismatch("post.values", "model %r implementation %r" % (vals, ex["vals"]), ex["rp"])
-    if not np.array_equal(ex["V"][:, idx], ex["vecs"]):
+    W = np.asarray(ex["V"])[:, idx]
+    got = np.asarray(ex["vecs"])
+    same = W.shape == got.shape and all(
+        min(maxabs(W[:, c] - got[:, c]), maxabs(W[:, c] + got[:, c])) <= 1e-7 for c in range(W.shape[1]))
+    if not same:                       # up to the sign of each eigenvector and rounding (audit F7)
         ctx.mismatch("post.vectors", "implementation's eigenvectors are not the witness columns %r" % idx, ex["rp"])
 
 
@@ -1180,7 +1224,9 @@ def val_tok(v, obs=None):
         return "N"
     if v[0] == "F":
         if obs is not None:
-            return "G %s %s %d %s" % (common.fq(v[1]), common.fq(obs[0]), len(obs[1]), common.fqs(obs[1]))
+            # `R`: the float form with the count clamped to n_components - what the code does since fix adec1e3; the
+            # unclamped pre-fix form (`G`) is no longer accepted as an alternative (audit F4)
+            return "R %s %s %d %s" % (common.fq(v[1]), common.fq(obs[0]), len(obs[1]), common.fqs(obs[1]))
         return "F " + common.fq(v[1])
     return "%s %d" % (v[0], v[1])
 
@@ -1307,9 +1353,19 @@ def float_outcomes(r, cum0, ncomp):
     hi = sum(1 for c in cum0[:ncomp] if c < fr + TIE) + 1
     counts = set(k for k in range(lo, hi + 1) if k <= ncomp)
     may_raise = fr > kept - TIE            # above (or at a rounding error from) the kept ratio
+    if fr == 1 and ncomp == len(cum0):
+        # "keep all the variance" on an untrimmed model: the kept ratio is x / x == 1.0 exactly in float arithmetic too,
+        # so the guard `value <= _total_variance_ratio()` holds and the request is valid (fixed defect adec1e3: the
+        # count used to overshoot n_components by a rounding error and raise)
+        may_raise = False
     if fr > kept + TIE:
         counts = set()
     return counts, may_raise
+
+
+def float_in_range(r, cum0, ncomp):
+    """is the fraction a request the property speaks about: 0 < r <= kept ratio (clearly)"""
+    return F(r) > 0 and F(r) <= cum0[ncomp - 1] + TIE
 
 
 def run_book_case(ctx, spec, mx, ops, cid, lines, expect, cross=False):
@@ -1339,15 +1395,23 @@ def run_book_case(ctx, spec, mx, ops, cid, lines, expect, cross=False):
         mx_tok = val_tok(mx, obs)
     # constructor: max_n_components follows trim semantics
     if mx is not None:
+        # the property speaks about requests for 1..n_components components / a fraction in (0, kept ratio]: those must
+        # be honoured.  Whether a request OUTSIDE that range is refused or clamped is not in the text (audit F2): it is
+        # compared with the model only (the `book` line below), never judged by the oracle.
         if mx[0] == "F":
-            counts, may_raise = float_outcomes(mx[1], cum0, k0)
-            ctx.check((M is None and may_raise) or (M is not None and int(M.n_components) in counts), site,
-                      "constructor-error-kind", "max_n_components=%r: %s" % (
-                          val_py(mx), "raised ValueError" if M is None else "kept %d" % M.n_components), rp)
+            if float_in_range(mx[1], cum0, k0):
+                counts, may_raise = float_outcomes(mx[1], cum0, k0)
+                ctx.check((M is None and may_raise) or (M is not None and int(M.n_components) in counts), site,
+                          "constructor-request", "max_n_components=%r: %s" % (
+                              val_py(mx), "raised ValueError" if M is None else "kept %d" % M.n_components), rp)
+            else:
+                ctx.count("out-of-range:ctor:" + ("refused" if M is None else "accepted"))
+        elif 1 <= mx[1] <= k0:
+            ctx.check(M is not None and int(M.n_components) == mx[1], site, "constructor-request",
+                      "max_n_components=%r: %s" % (val_py(mx), "raised ValueError" if M is None else
+                                                   "kept %d" % M.n_components), rp)
         else:
-            legal = (mx[0] == "I" and mx[1] >= 1) or (mx[0] == "P" and 1 <= mx[1] <= k0)
-            ctx.check((M is not None) == legal, site, "constructor-error-kind",
-                      "max_n_components=%r: %s" % (val_py(mx), "raised ValueError" if M is None else "accepted"), rp)
+            ctx.count("out-of-range:ctor:" + ("refused" if M is None else "accepted"))
     if M is None:
         lines.append("%s book %d %d %s %s 0" % (cid, k0, k0, common.fqs(eig0), mx_tok))
         expect[cid] = dict(kind="book", trace=None, rp=rp)
@@ -1412,24 +1476,32 @@ def run_book_case(ctx, spec, mx, ops, cid, lines, expect, cross=False):
                                                       "(numpy.linalg.qr contract)", rpi)
             trace.append((status, after))
             continue
+        # requests the property speaks about (1..n_components components, a fraction in (0, kept ratio], None for trim)
+        # must be honoured; what happens to a request outside that range (refused / clamped) is not in the text
+        # (audit F2): compared with the model (`book` line), judged only through the invariants of book_oracle and
+        # "a call that raised changed nothing" above
         if v[0] == "F":
-            counts, may_raise = float_outcomes(v[1], cum0, ncomp_b)
-            ctx.check((status == "err" and may_raise) or (status == "ok" and after["nact"] in counts), site,
-                      "float-selection", "%s %r on n_components=%d n_active=%d: %s; admissible counts %r%s" % (
-                          o, pv, ncomp_b, nact_b, "raised ValueError" if status == "err" else "n_active=%d" % after["nact"],
-                          sorted(counts), " or ValueError" if may_raise else ""), rpi)
-            if status == "err" and counts:
-                ctx.count("float:raised-at-tie")       # rounding robustness (notes/fixes/C10-float-fraction-rounding.diff)
-            tgt = after["nact"] if status == "ok" else None
+            if float_in_range(v[1], cum0, ncomp_b):
+                counts, may_raise = float_outcomes(v[1], cum0, ncomp_b)
+                ctx.check((status == "err" and may_raise) or (status == "ok" and after["nact"] in counts), site,
+                          "float-selection", "%s %r on n_components=%d n_active=%d: %s; admissible counts %r%s" % (
+                              o, pv, ncomp_b, nact_b, "raised ValueError" if status == "err" else "n_active=%d" % after["nact"],
+                              sorted(counts), " or ValueError" if may_raise else ""), rpi)
+                if status == "err" and counts:
+                    ctx.count("float:raised-at-tie")   # the float guard `value <= kept ratio` within 1e-6 of the kept ratio
+            else:
+                ctx.count("out-of-range:%s%s:%s" % (o, v[0], status))
+            tgt = after["nact"] if status == "ok" and float_in_range(v[1], cum0, ncomp_b) else None
         else:
             if v[0] == "N":
                 tgt = nact_b
             else:
-                k = v[1]
-                tgt = None if (k < 1 or (v[0] == "P" and k > ncomp_b)) else min(k, ncomp_b)
-            ctx.check((tgt is None) == (status == "err"), site, "error-kind",
-                      "%s %r on n_components=%d n_active=%d: %s" % (
-                          o, pv, ncomp_b, nact_b, "raised ValueError" if status == "err" else "accepted"), rpi)
+                tgt = v[1] if 1 <= v[1] <= ncomp_b else None
+            if tgt is not None:
+                ctx.check(status == "ok", site, "valid-request-refused",
+                          "%s %r on n_components=%d n_active=%d raised ValueError" % (o, pv, ncomp_b, nact_b), rpi)
+            else:
+                ctx.count("out-of-range:%s%s:%s" % (o, v[0], status))
         if tgt is not None and status == "ok":
             ctx.check(after["nact"] == tgt, site, "active-count",
                       "%s %r on n_components=%d n_active=%d gives n_active=%d, expected %d" % (
@@ -1472,6 +1544,55 @@ def run_book_case(ctx, spec, mx, ops, cid, lines, expect, cross=False):
     except Exception as e:
         ctx.fail(site, "raises", "rebuilding with max_n_components raised %s: %s" % (type(e).__name__, e), rp)
     expect[cid] = dict(kind="book", trace=trace, orig=orig, exact=(spec["source"] == "synthetic"), rp=rp, alt_id=alt)
+
+
+def run_npfloat_case(ctx, rng, idx):
+    """audit F3: a variance fraction handed over as a numpy floating scalar that is NOT a python float (np.float32 /
+    np.float16 - e.g. computed from float32 data).  Outside the Lean model's value types (python int / python float /
+    numpy integer / None): oracle only.  A refusal that changes nothing is acceptable; an accepted request must keep
+    1 <= n_active <= n_components and select the count the fraction asks for."""
+    site = "C10/bookkeeping/numpy-float"
+    eig0 = gen_spectrum(rng)
+    k0 = len(eig0)
+    cum0 = cum_ratios(eig0)
+    for _ in range(50):
+        f = rng.randint(1, 63) / 64.0                       # exactly representable in float16 / float32
+        if all(abs(F(f) - c) > F(1, 1000) for c in cum0):
+            break
+    else:
+        return
+    dt = rng.choice(["float32", "float16"])
+    op = rng.choice(["S", "T"])
+    spec = dict(source="synthetic", eig0=eig0, extra=1, kind="vector")
+    rp = dict(spec=spec, op=op, value="numpy.%s(%r)" % (dt, f),
+              how="M = make_book_model(spec, None); M.n_active_components = v  (S) / M.trim_components(v)  (T)")
+    M = make_book_model(spec, None)
+    v = getattr(np, dt)(f)
+    before = (int(M.n_components), int(M.n_active_components), [float(x) for x in M._eigenvalues])
+    try:
+        if op == "S":
+            M.n_active_components = v
+        else:
+            M.trim_components(v)
+        status = "ok"
+    except (ValueError, TypeError):
+        status = "err"
+    except Exception as e:
+        ctx.fail(site, "raises", "%s %r raised %s: %s" % (op, v, type(e).__name__, e), rp)
+        return
+    ctx.count("numpy-float:%s:%s:%s" % (dt, op, status))
+    ctx.case(("npfloat", json.dumps([eig0, f, dt, op])), nontrivial=k0 >= 2,
+             sample=dict(kind="numpy-float", spectrum=eig0, value=rp["value"], op=op) if idx < 1 else None)
+    nact, ncomp = int(M.n_active_components), int(M.n_components)
+    if status == "err":
+        ctx.check((ncomp, nact, [float(x) for x in M._eigenvalues]) == before, site, "state-changed-by-failed-call",
+                  "a refused numpy-float request changed the model", rp)
+        return
+    counts, _may = float_outcomes(f, cum0, k0)
+    ctx.check(1 <= nact <= ncomp and nact in counts and (op == "S" or ncomp == nact), site,
+              "fraction-truncated-to-integer",
+              "%s numpy.%s(%r) on %d components: n_active_components = %d, n_components = %d; the fraction asks for %r" % (
+                  op, dt, f, k0, nact, ncomp, sorted(counts)), rp)
 
 
 def parse_state(txt):
@@ -1685,6 +1806,8 @@ def explore(ctx, rng, n_models, n_post, n_books, with_model=True):
         ctx.count("book:" + spec["source"])
         ctx.case(("book", json.dumps([spec["eig0"], mx, ops])), nontrivial=len(spec["eig0"]) >= 2,
                  sample=dict(kind="book", spectrum=spec["eig0"], max_n_components=mx, ops=ops) if i < 2 else None)
+    for i in range(max(1, n_books // 15)):
+        run_npfloat_case(ctx, rng, i)
     if with_model and lines:
         replies = common.run_driver(PROP, lines)
         cmp = dict(pca=compare_pca, lin=compare_lin, post=compare_post, book=compare_book, obj=compare_obj,
